@@ -21,6 +21,13 @@
 // (payload.go); read buffers are pre-filled with its complement. The wire delivers whole queues, drawn fragments or 1-3
 // bytes at a time.
 //
+// Drawn in every stratum (no faults, part of "every underlying connection"): each raw endpoint may return the last
+// bytes of the stream TOGETHER with io.EOF in one Read call (simnet SetEOFWithData; the io.Reader contract allows it).
+// Noise-based layers get a prelude of 0-3 sacrificial bare Noise sessions that are closed while plaintext of a partially
+// read frame is queued, closed twice and / or read after Close (see prelude()): whatever they leave in process-wide
+// state (go-buffer-pool) must not reach the data phase, whose frames come from the same size classes. The global buffer
+// pool is replaced by an empty one at the start of every run, so that runs stay independent of each other.
+//
 // Fault strata (drawn; kept apart so that a relaxation cannot hide an ordinary bug):
 //
 //	clean       fragmentation only
@@ -53,6 +60,10 @@
 //	                                        the reader must reach io.EOF with planned == accepted == delivered.
 //	C02/hang/<lay>                          strong regime: no Read/Write returned for 3 virtual minutes.
 //	C02/read-no-progress/<lay>              more than 8 consecutive (0, nil) Reads with a non-empty buffer.
+//	C02/wrong-bytes/<lay>/read-after-close  prelude: a Read on a closed session returned bytes that are not the queued ones.
+//	C02/fault-free-run-failed/<lay>/<stage> a step of the fault-free part (handshake, connect, dial, new-stream, accept,
+//	                                        prelude-*) failed before anything was injected (see failSetup for why this
+//	                                        is a violation and not harness trouble).
 //	C02/panic/<lay>
 //
 // Under tampering / stall / peer close / after a timeout on the reader ("weak regime") an operation may fail and
@@ -102,11 +113,20 @@
 //	M12  pnet Write encrypts in place                                              1 s  write-modified-buffer/pnet
 //	M13  swarm Stream.CloseWrite closes both directions                            4 s  incomplete/*/read-reset, write-reset
 //	M14  noise Read swallows a decrypt error (skips the frame)                     8 s  premature-eof/noise/eof-alone/bytes-missing/after-tamper
+//
+// Seeded by the lead (checked with VERIF_REPO=<worktree> ./check C02 quick, 8 workers):
+//
+//	S1   noise Close() returns the queued read buffer to the pool without clearing it (double Put after a second Close /
+//	     a draining Read; another connection's queued plaintext is overwritten)    caught from run ~20 on: wrong-bytes/host-noise,
+//	     wrong-bytes/noise[/after-tamper], wrong-bytes/mux-noise, incomplete/*-noise/*, hang/host-noise (needs the prelude and the
+//	     per-run pool reset; some of the minimised tapes do not reproduce in a fresh process because sync.Pool is not deterministic)
+//	S2   pnet Read returns before the XOR when data and error arrive in one call    run 0: wrong-bytes/pnet (needs SetEOFWithData)
 package c02
 
 import (
 	"context"
 	"fmt"
+	"io"
 	"net"
 	"os"
 	"sort"
@@ -116,6 +136,7 @@ import (
 	"testing"
 	"time"
 
+	pool "github.com/libp2p/go-buffer-pool"
 	"github.com/libp2p/go-libp2p/core/network"
 	"github.com/libp2p/go-libp2p/core/peer"
 	"github.com/libp2p/go-libp2p/core/peerstore"
@@ -168,6 +189,8 @@ type world struct {
 	probes map[string]int
 	hung   bool
 	lazy   int
+
+	setupFail string // stage of the fault-free part that failed ("" = none)
 }
 
 func (w *world) layer() string { return layerName[w.p.layer] }
@@ -190,6 +213,10 @@ func (w *world) arena(i int) []byte {
 }
 
 func run(t *testing.T, tape *simrt.Tape) *common.Outcome {
+	// go-buffer-pool's global pool is process-wide state shared by Noise, pnet, yamux and multistream: every run starts
+	// with an empty one, so that a run stays a pure function of its tape even when the code under test mismanages
+	// pooled buffers (what one run does to the pool cannot surface in another run of the same worker process).
+	pool.GlobalPool = new(pool.BufferPool)
 	g := simrt.Gen{S: tape.G}
 	o := &common.Outcome{}
 	p := genPlan(g)
@@ -257,7 +284,6 @@ func (w *world) setupConn() bool {
 	p := w.p
 	w.rawA, w.rawB = w.n.Pipe("10.0.0.1", "10.0.0.2", 4001)
 	w.installHook(w.rawA)
-	keyA, keyB := simhost.DetKey(1), simhost.DetKey(2)
 	switch p.layer {
 	case layPnet:
 		psk := make([]byte, 32)
@@ -277,9 +303,17 @@ func (w *world) setupConn() bool {
 		w.connA, w.connB = ca, cb
 		return true
 	}
+	a, b, ok := w.secureHandshake(w.rawA, w.rawB, p.layer == layTLS, "handshake")
+	w.connA, w.connB = a, b
+	return ok
+}
+
+// secureHandshake runs the real Noise / TLS handshake over a raw pair from two tasks.
+func (w *world) secureHandshake(rawA, rawB *simnet.Conn, useTLS bool, stage string) (net.Conn, net.Conn, bool) {
+	keyA, keyB := simhost.DetKey(1), simhost.DetKey(2)
 	var tA, tB sec.SecureTransport
 	var err error
-	if p.layer == layNoise {
+	if !useTLS {
 		tA, err = noise.New(noise.ID, keyA, nil)
 		if err == nil {
 			tB, err = noise.New(noise.ID, keyB, nil)
@@ -292,37 +326,50 @@ func (w *world) setupConn() bool {
 	}
 	if err != nil {
 		w.o.Trouble = "security transport: " + err.Error()
-		return false
+		return nil, nil, false
 	}
 	idB, err := peer.IDFromPrivateKey(keyB)
 	if err != nil {
 		w.o.Trouble = "peer id: " + err.Error()
-		return false
+		return nil, nil, false
 	}
 	ctx, cancel := context.WithTimeout(context.Background(), time.Minute)
 	defer cancel()
 	ra, rb := make(chan hsResult, 1), make(chan hsResult, 1)
-	simrt.GoNamed("handshake-A", func() {
-		c, err := tA.SecureOutbound(ctx, w.rawA, idB)
+	simrt.GoNamed(stage+"-A", func() {
+		c, err := tA.SecureOutbound(ctx, rawA, idB)
 		ra <- hsResult{c, err}
 	})
-	simrt.GoNamed("handshake-B", func() {
-		c, err := tB.SecureInbound(ctx, w.rawB, "")
+	simrt.GoNamed(stage+"-B", func() {
+		c, err := tB.SecureInbound(ctx, rawB, "")
 		rb <- hsResult{c, err}
 	})
 	a := simrt.Recv("hs-a", ra)
 	b := simrt.Recv("hs-b", rb)
+	var ca, cb net.Conn
 	if a.c != nil {
-		w.connA = a.c
+		ca = a.c
 	}
 	if b.c != nil {
-		w.connB = b.c
+		cb = b.c
 	}
 	if a.err != nil || b.err != nil {
-		w.o.Trouble = fmt.Sprintf("fault-free handshake failed: A=%v B=%v", a.err, b.err)
-		return false
+		w.failSetup(stage, fmt.Sprintf("A=%v B=%v", a.err, b.err))
+		return ca, cb, false
 	}
-	return true
+	return ca, cb, true
+}
+
+// failSetup: a step of the FAULT-FREE part of a run failed (handshake, connect, stream open / accept, the prelude):
+// nothing was injected yet - no adversary armed, no stall, at most milliseconds of link latency against timeouts of a
+// minute - and the step only moves bytes over secured connections and streams, so a failure means those bytes did not
+// arrive intact. A violation of its own class, not harness trouble (which is left for what the harness itself cannot
+// build: keys, transports, nodes).
+func (w *world) failSetup(stage, text string) {
+	if w.setupFail == "" {
+		w.setupFail = stage
+		w.violate("C02/fault-free-run-failed/"+w.layer()+"/"+stage, fmt.Sprintf("before any fault was injected: %s failed: %s", stage, text))
+	}
 }
 
 func (w *world) setupNodes() bool {
@@ -370,13 +417,13 @@ func (w *world) setupNodes() bool {
 	defer cancel()
 	if host {
 		if err := a.Host.Connect(ctx, b.AddrInfo()); err != nil {
-			w.o.Trouble = "fault-free connect failed: " + err.Error()
+			w.failSetup("connect", err.Error())
 			return false
 		}
 		for s := 0; s < p.nstreams; s++ {
 			st, err := a.Host.NewStream(ctx, b.ID, protoOf(s))
 			if err != nil {
-				w.o.Trouble = "fault-free NewStream failed: " + err.Error()
+				w.failSetup("new-stream", err.Error())
 				return false
 			}
 			if strings.Contains(fmt.Sprintf("%T", st), "streamWrapper") {
@@ -387,13 +434,13 @@ func (w *world) setupNodes() bool {
 	} else {
 		c, err := a.Swarm.DialPeer(ctx, b.ID)
 		if err != nil {
-			w.o.Trouble = "fault-free dial failed: " + err.Error()
+			w.failSetup("dial", err.Error())
 			return false
 		}
 		for s := 0; s < p.nstreams; s++ {
 			st, err := c.NewStream(ctx)
 			if err != nil {
-				w.o.Trouble = "fault-free NewStream failed: " + err.Error()
+				w.failSetup("new-stream", err.Error())
 				return false
 			}
 			w.strA[s] = st
@@ -406,7 +453,7 @@ func (w *world) setupNodes() bool {
 				}
 			}
 			if w.strB[s] == nil {
-				w.o.Trouble = fmt.Sprintf("stream %d was not accepted by B", s)
+				w.failSetup("accept", fmt.Sprintf("stream %d opened by A was not accepted by B within 2 s", s))
 				return false
 			}
 		}
@@ -467,8 +514,15 @@ func (w *world) main(tape *simrt.Tape) {
 		simrt.TimeSleep(time.Second) // identify and friends
 		simrt.WaitIdle()
 	}
+	if !w.prelude() {
+		w.teardown()
+		return
+	}
+	simrt.WaitIdle()
 	w.rawA.SetMode(p.mode)
 	w.rawB.SetMode(p.mode)
+	w.rawA.SetEOFWithData(p.ewd[0])
+	w.rawB.SetEOFWithData(p.ewd[1])
 	if w.mitm != nil {
 		w.mitm.armed = true
 	}
@@ -549,6 +603,112 @@ func (w *world) peerCloser() {
 	default:
 		w.nodeB.Swarm.ClosePeer(w.nodeA.ID)
 	}
+}
+
+// prelude (Noise-based layers): sacrificial bare Noise sessions on the same simulated network, run to completion before
+// the data phase. Each one is CLOSED WHILE PLAINTEXT OF A PARTIALLY READ FRAME IS QUEUED inside the session, then closed
+// again and / or read again (a Read on a closed session may hand out what was queued - it must be the right bytes - or
+// fail). Nothing here is a fault; the sessions share nothing with the connections of the data phase except the
+// process: whatever they leave behind in shared state (the buffer pool) must not reach the data phase, whose frames
+// are drawn from the same size classes.
+func (w *world) prelude() bool {
+	for i, sp := range w.p.sac {
+		if !w.sacrifice(i, sp) {
+			return false
+		}
+	}
+	return true
+}
+
+func (w *world) sacrifice(i int, sp sacPlan) bool {
+	lay := w.layer()
+	ra, rb := w.n.Pipe("10.0.1.1", "10.0.1.2", 5000+i)
+	defer ra.Close()
+	defer rb.Close()
+	ca, cb, ok := w.secureHandshake(ra, rb, false, "prelude-handshake")
+	if !ok {
+		return false
+	}
+	t := tab(4, 0, sp.size)
+	src := t.src[:sp.size:sp.size]
+	if n, err := ca.Write(src); n != sp.size || err != nil {
+		w.failSetup("prelude-write", fmt.Sprintf("Write(%d bytes) = %d, %v", sp.size, n, err))
+		return false
+	}
+	if string(src) != string(t.exp[:sp.size]) {
+		copy(src, t.exp[:sp.size])
+		w.violate("C02/write-modified-buffer/"+lay, fmt.Sprintf("prelude %d: Write(%d bytes) changed the caller's buffer", i, sp.size))
+	}
+	off := 0
+	read := func(size int, what string) (int, error) {
+		buf := make([]byte, size)
+		copy(buf, t.neg[off:min(off+size, len(t.neg))])
+		n, err := cb.Read(buf)
+		w.o.Logf("  prelude %d: %s Read(buf %d) @%d = %d, %s", i, what, size, off, n, errKind(err))
+		if n < 0 || n > size {
+			w.violate("C02/read-count-out-of-range/"+lay, fmt.Sprintf("prelude %d: %s Read with a %d-byte buffer returned n=%d", i, what, size, n))
+			return 0, io.ErrNoProgress
+		}
+		if n > 0 {
+			if off+n > sp.size || string(buf[:n]) != string(t.exp[off:off+n]) {
+				k := 0
+				for off+k < sp.size && k < n && buf[k] == t.exp[off+k] {
+					k++
+				}
+				class := "C02/wrong-bytes/" + lay
+				if what != "first" {
+					class += "/read-after-close"
+				}
+				w.violate(class, fmt.Sprintf("prelude %d (one %d-byte frame written): %s Read returned %d bytes for offsets %d..%d, wrong from offset %d on", i, sp.size, what, n, off, off+n-1, off+k))
+				return 0, io.ErrNoProgress
+			}
+			off += n
+		}
+		return n, err
+	}
+	for tries := 0; off == 0 && tries < 4; tries++ {
+		_, err := read(sp.first, "first")
+		if err == io.ErrNoProgress { // a violation was filed: the run goes on without this session
+			ca.Close()
+			cb.Close()
+			return true
+		}
+		if err != nil {
+			w.failSetup("prelude-read", fmt.Sprintf("first Read of a %d-byte frame: %v", sp.size, err))
+			return false
+		}
+	}
+	if off == 0 {
+		w.failSetup("prelude-read", fmt.Sprintf("4 Reads of a %d-byte frame returned no data", sp.size))
+		return false
+	}
+	cerr := cb.Close()
+	w.o.Logf("  prelude %d: Close() with %d of %d bytes read = %s", i, off, sp.size, errKind(cerr))
+	w.probe("session-closed-with-queued-plaintext")
+	for _, op := range sp.ops {
+		switch op {
+		case 0:
+			cerr := cb.Close()
+			w.o.Logf("  prelude %d: Close() again = %s", i, errKind(cerr))
+			w.probe("session-closed-twice")
+		case 1:
+			if n, _ := read(sp.first, "after-close"); n > 0 {
+				w.probe("read-after-close-returned-queued-bytes")
+			}
+		case 2:
+			for k := 0; k < 40; k++ {
+				n, err := read(4096, "after-close")
+				if n > 0 {
+					w.probe("read-after-close-returned-queued-bytes")
+				}
+				if err != nil {
+					break
+				}
+			}
+		}
+	}
+	ca.Close()
+	return true
 }
 
 func (w *world) connEnd(c net.Conn, raw *simnet.Conn) *end {
@@ -729,9 +889,9 @@ func (w *world) finish(res simrt.Result) {
 	faulted := advFired || stallFired || peerClosed
 
 	var sig []string
-	sig = append(sig, lay, stratumName[p.stratum], modeName(p.mode), fmt.Sprintf("adv=%v stall=%v pc=%v hung=%v", advFired, stallFired, peerClosed, w.hung))
+	sig = append(sig, lay, stratumName[p.stratum], modeName(p.mode), fmt.Sprintf("adv=%v stall=%v pc=%v hung=%v sac=%d ewd=%v fail=%s", advFired, stallFired, peerClosed, w.hung, len(p.sac), p.ewd, w.setupFail))
 	totalData := 0
-	judged := res.Panic == "" && o.Trouble == "" && !res.StepLimit && !res.Stuck && res.Deadlock == ""
+	judged := res.Panic == "" && o.Trouble == "" && w.setupFail == "" && !res.StepLimit && !res.Stuck && res.Deadlock == ""
 	for s := range w.chans {
 		for d := 0; d < 2; d++ {
 			c := w.chans[s][d]
@@ -749,6 +909,9 @@ func (w *world) finish(res simrt.Result) {
 					w.probes["write-reaching-yamux-window"]++
 					break
 				}
+			}
+			if c.eofWithData {
+				w.probes["final-bytes-and-eof-in-one-read"]++
 			}
 			nv := len(o.Violations)
 			for _, v := range append(append([]common.Violation(nil), c.rviol...), c.wviol...) {
@@ -775,7 +938,7 @@ func (w *world) finish(res simrt.Result) {
 		}
 	}
 	o.Sig = strings.Join(sig, "|")
-	o.Nontrivial = faulted || totalData >= 2
+	o.Nontrivial = faulted || totalData >= 2 || len(p.sac) > 0
 	if res.Panic != "" {
 		o.Violate("C02/panic/"+lay, "%s", res.Panic)
 		return
